@@ -891,8 +891,30 @@ impl Hist {
 	fn cancel(&mut self, i: usize) {
 		// by log id, by slate id of a flight, or something that does not exist
 		let forced = self.force_cancel.is_some();
-		let (id, slate): (Option<u32>, Option<Uuid>) = match self.p.below(5) {
+		let (id, slate): (Option<u32>, Option<Uuid>) = match self.p.below(7) {
 			_ if self.force_cancel.is_some() => (None, self.force_cancel.take()),
+			// both identifiers: they must name the same entry (a log id with the slate id of that very
+			// entry, of another flight, or of nothing)
+			5 | 6 => {
+				let entries: Vec<(u32, Option<Uuid>)> = self.s.with(i, |b, _| {
+					let pk = b.parent_key_id();
+					b.tx_log_iter().filter(|t| t.parent_key_id == pk).map(|t| (t.id, t.tx_slate_id)).collect()
+				});
+				if entries.is_empty() {
+					(Some(0), Some(Uuid::from_bytes([9u8; 16])))
+				} else {
+					let (tid, own) = entries[self.p.below(entries.len() as u64) as usize];
+					let sl = match self.p.below(4) {
+						0 => own.or(Some(Uuid::from_bytes([9u8; 16]))),
+						1 => Some(Uuid::from_bytes([9u8; 16])),
+						_ => match self.pick_flight() {
+							Some(f) => Some(self.flights[f].id),
+							None => Some(Uuid::from_bytes([9u8; 16])),
+						},
+					};
+					(Some(tid), sl)
+				}
+			}
 			0 | 1 => {
 				let n = self.s.with(i, |b, _| b.tx_log_iter().count()) as u64;
 				(Some(self.p.below(n + 2) as u32), None)
